@@ -321,22 +321,8 @@ func (c *DaisyChainConnection) background(ctx context.Context) {
 
 		case msg := <-c.fromLeft:
 			if h == nil {
-				// No handler. Can we propagate the message rightwards?
-				if toRight == nil {
-					continue
-				}
-
-				// There is a connection to the right. Pass the message through.
-				if !gchan.SendC(
-					ctx, c.log,
-					toRight, msg,
-					"propagating message to right without handler",
-				) {
-					return
-				}
-
-				// Nil handler and it's been propagated,
-				// so wait for the next signal.
+				// No handler, so nobody accepted the message:
+				// like a rejected or ignored message, it is not propagated.
 				continue
 			}
 
@@ -347,22 +333,7 @@ func (c *DaisyChainConnection) background(ctx context.Context) {
 
 		case msg := <-fromRight:
 			if h == nil {
-				// No handler. Can we propagate the message leftwards?
-				if c.toLeft == nil {
-					continue
-				}
-
-				// There is a connection to the left. Pass the message through.
-				if !gchan.SendC(
-					ctx, c.log,
-					c.toLeft, msg,
-					"propagating message to left without handler",
-				) {
-					return
-				}
-
-				// Nil handler and it's been propagated,
-				// so wait for the next signal.
+				// As above: without a handler the message is not propagated.
 				continue
 			}
 
